@@ -51,9 +51,19 @@ class Clock(object):
     def time(self):
         return 1000000.0 + self.ticks / TICK
 
-    # anything else the session module might use from `time`
+    # anything else the session module might use from `time`: the other clocks read the same virtual time (a maintainer
+    # may well switch to time.monotonic()), sleeping moves it, everything else is the real module's
+    def monotonic(self):
+        return 5000.0 + self.ticks / TICK
+
+    perf_counter = monotonic
+
     def sleep(self, s):
-        pass
+        self.ticks += int(round(s * TICK))
+
+    def __getattr__(self, name):
+        import time as _real_time
+        return getattr(_real_time, name)
 
 
 class SimSocket(object):
